@@ -209,3 +209,15 @@ FAMILIES["C17"] = dict(
                 "TLC checks the template rule's laws and enumerates every template of <= 4 (5) units over {$,0,1,2,x} plus two-digit forms against patterns with 0/1/2/3/12 groups, and every function form over 8 patterns x 10 subjects x 6 limits; seeded patterns from a grammar (classes, alternation, nested/optional groups, quantifiers, anchors, every flag subset) x subjects <= 12 x templates x limits are validated the same way."),
     level_note=_SEM_NOTE + " That RE2 itself finds the leftmost non-overlapping matches is assumed (environment); the recorded match lists come from Go's regexp applied to the pattern text the parser extracted.",
 )
+
+FAMILIES["C20"] = dict(
+    models=_API_MODELS,
+    g=[G("MC_C20", "MC_C20_quick.cfg", "MC_C20_thorough.cfg")],
+    v=[],
+    hist=dict(n={"quick": 600, "thorough": 12000}),
+    level_text=("Registry visibility is the invariant JApi!Visibility (an expression sees exactly the package-level registrations made before it was compiled plus its own), proved by TLC for all histories of <= 4 API calls and shown to fail under the registry_alias deviation; "
+                "seeded histories of RegisterVars/RegisterExts (package- and Expr-level, valid and invalid names, same-named values on different expressions) interleaved with Compile and Eval are validated against JApi by TraceApi. Argument passing is the TLA+ relation JEval!Convert / ExtCall "
+                "(numbers to numeric kinds, strings to string or []byte but nothing else to string, anything to interface{}/reflect.Value, Optional* unset when omitted, variadic tail, the two handlers, error and ErrUndefined results): TLC enumerates every parameter list of length 0..2 over 16 Go parameter kinds, "
+                "with and without a variadic tail, x argument lists of length 0..2 (3) over 9 argument kinds incl. function and missing, plus handler and result-shape combinations; each case builds the Go function by reflection, which echoes what it received, and is validated by trace validation."),
+    level_note=_SEM_NOTE + " Out-of-range and fractional numeric conversions and JSON null arguments are left open by the statement (the specification abstains).",
+)
